@@ -35,6 +35,23 @@ def mat(A):
             'idx': [int(v) + 1 for v in A.indices], 'dat': dat}
 
 
+def cks(*objs):
+    """Checksums (strings) of the arrays that constitute operands: bit-for-bit identity is decided by TLC on these."""
+    import hashlib
+    out = []
+    for o in objs:
+        h = hashlib.sha1()
+        if o is None:
+            out.append('none')
+            continue
+        arrs = [o.data, o.indices, o.indptr] if hasattr(o, 'indptr') else [np.asarray(o)]
+        for a in arrs:
+            a = np.ascontiguousarray(a)
+            h.update(str(a.shape).encode() + a.dtype.str.encode() + a.tobytes())
+        out.append(h.hexdigest()[:16])
+    return out
+
+
 def vec(v):
     return exact_ints(np.asarray(v, dtype=np.float64).ravel())
 
@@ -111,13 +128,12 @@ def execute(rec):
     def base(a, A, b, x, D0):
         ev = {'a': a, 'n': n, 'A': mat(A), 'hasb': hasb, 'hasx': hasx, 'err': '', 'exact': 1,
               'b': ([] if b is None else (vec(b) if hasb == 1 else mat(b))),
-              'x': ([] if x is None else vec(x)), 'D': one_based(D0), 'ov': 0, 'diag': 1}
+              'x': ([] if x is None else vec(x)), 'D': one_based(D0), 'ov': 0, 'diag': 1,
+              'ck': cks(A, b, x), 'ck2': [], 'ck3': []}
         return ev
 
     def after(ev, A, b, x):
-        ev['A2'] = mat(A)
-        ev['b2'] = [] if b is None else (vec(b) if hasb == 1 else mat(b))
-        ev['x2'] = [] if x is None else vec(x)
+        ev['ck2'] = cks(A, b, x)
 
     def setexact(ev, *vals):
         if any(v is None for v in vals):
@@ -186,6 +202,8 @@ def execute(rec):
                         ev['piped'] = 1
                         ev['z'] = vec(z)
                         ev['y'] = vec(y)
+                        # operands of the pipeline after solve(): the prescribed values and the system
+                        ev['ck3'] = cks(A_, b_, x_)
             setexact(ev, ev['AII'], ev['bI'], ev['xr'], ev['y'])
             if ev['exact'] == 0:
                 ev.update(AII=EMPTY_MAT, bI=[], xr=[], y=[])
@@ -231,6 +249,7 @@ def execute(rec):
             return X, Y, Ir
         res, err = guarded(call)
         ev['err'] = err
+        after(ev, A, b, x)
         ev.update(k=k, X=[], Y=[], Ir=[])
         if not err:
             X, Y, Ir = res
@@ -257,6 +276,7 @@ def execute(rec):
                 return su.solve(*su.penalize(A, b, x=x, epsilon=2.0**-30, **kw))
             y, err = guarded(call)
             ev['err'] = err
+            after(ev, A, b, x)
             if not err:
                 enc = [fx(v) for v in np.asarray(y).ravel()]
                 if any(v is None for v in enc):
